@@ -103,6 +103,7 @@ InitState(cfg) ==
      D0 |-> [d \in {RootId} |-> NewDeme(0, NoDeme, 0)],      \* deme table at the beginning of the step
      stepCalls |-> 0, steps |-> 0,
      fwd |-> 0, refused |-> 0,                                \* objective invocations / refusals of the budget wrapper
+     ban |-> {},                                              \* trace validation: demes that must not be created any more
      pendingInit |-> <<RootId>>,                              \* demes constructed, initial evaluations pending
      roundPart |-> {}, roundFrom |-> {}, roundNew |-> {}, rounds |-> 0]
 
